@@ -2,7 +2,7 @@ from planlib import geo
 
 
 def _jobs(tier):
-    mult = 1 if tier == "quick" else 20
+    mult = 1 if tier == "quick" else 300
     jobs = []
     for k in range(1, 17):
         jobs.append(dict(sub="box", count=geo(k, 1500, 6, 8) * mult, fix=dict(k=k)))
